@@ -608,12 +608,12 @@ func expectPanic(f func()) (panicked bool) {
 // literal=true (harness C08/misuse-literal) every later call is asserted (check C08.misuse-healed).
 func c08Misuse(literal bool) {
 	cc := bigbuff.NewChanCaster(make(chan int))
-	variant := simrt.Draw(5)
+	variant := simrt.Draw(6)
 	c := simrt.DrawRange(0, 2)
 	extra := []int{1, 1, 2, math.MaxInt32}[simrt.Draw(4)]
 	wide := 0 // out-of-range deltas beyond 32 bits (int is 64 bits wide here)
 	if simrt.Chance(1, 2) {
-		wide = simrt.DrawRange(1, 3)
+		wide = simrt.DrawRange(1, 4)
 	}
 	nLater := simrt.DrawRange(1, 5)
 	later := make([]int, nLater) // 0 Send, 1 Add(0), 2 Add(1), 3 Add(-1)
@@ -662,12 +662,17 @@ func c08Misuse(literal bool) {
 			delta = 1<<32 + extra%1000 // low 32 bits small: looks like a legal Add if truncated
 		case 3:
 			delta = 1<<40 + math.MaxInt32
+		case 4:
+			delta = math.MaxInt // its negation (variant 1) is MinInt+1; MinInt itself is used below
 		}
 		if wide != 0 {
 			simrt.Probe("oob_delta_beyond_32_bits")
 		}
 		if variant == 1 {
 			delta = -delta
+			if wide == 4 {
+				delta = math.MinInt // -MinInt == MinInt: a range check done after negating never sees it
+			}
 		}
 		if func() bool { defer ccGuard("main task (registering units)"); startUnits(); return true }() != true {
 			return
@@ -747,6 +752,33 @@ func c08Misuse(literal bool) {
 			return
 		}
 		simrt.Probe("overflowing_add")
+	case 5:
+		// exactly MaxInt32 registered is a legal state: a Send must start delivering (one real receiver
+		// takes the first copy; the rest of the registrations are never served, so the Send is released at
+		// the end by closing the channel, which makes its pending send panic as documented for closed
+		// channels)
+		c = 0
+		var res int
+		if expectPanic(func() { res = cc.Add(math.MaxInt32) }) || res != math.MaxInt32 {
+			simrt.Failf("C08.panic", "Add(MaxInt32) on an idle caster panicked or returned %d", res)
+			return
+		}
+		got5, sendPanicked, sendReturned := 0, false, false
+		go func() { got5 = <-cc.C }()
+		go func() {
+			sendPanicked = expectPanic(func() { cc.Send(7) })
+			sendReturned = true
+		}()
+		simrt.Quiesce(-1)
+		if got5 != 7 || sendReturned {
+			simrt.Failf("C08.missed", "MaxInt32 receivers are registered (the legal maximum): Send(7) must start delivering; the one real receiver got %d and Send returned=%v panicked=%v", got5, sendReturned, sendPanicked)
+			return
+		}
+		simrt.Probe("send_at_exactly_max_receivers")
+		close(cc.C)
+		simrt.Quiesce(-1)
+		close(stop)
+		return
 	case 4:
 		// two in-range positive Adds issued concurrently whose sum exceeds MaxInt32: whichever takes
 		// effect second overflows, so at least one of the two calls must panic
